@@ -33,6 +33,11 @@ def main():
         if st.stdout.strip():
             print("refusing: /repo has uncommitted changes")
             return 2
+        # the checks rewrite evidence/<id>.json and replays/; what is committed must describe the unchanged tree
+        keep = {}
+        for pp in props:
+            ev = os.path.join(VERIF, "evidence", pp + ".json")
+            keep[ev] = open(ev, "rb").read() if os.path.exists(ev) else None
         a = sh("git -C /repo apply %s" % patch)
         if a.returncode != 0:
             results[sid] = {"applied": False, "error": a.stdout.decode()[-400:]}
@@ -55,6 +60,9 @@ def main():
             print(sid, "caught" if r["caught"] else "MISSED", {p: (v.get("exit"), v.get("with_failing_input")) for p, v in r["checks"].items()})
         finally:
             sh("git -C /repo checkout -- .")
+            for ev, data in keep.items():
+                if data is not None:
+                    open(ev, "wb").write(data)
         json.dump(results, open(resp, "w"), indent=1, sort_keys=True)
     return 0
 
